@@ -5,9 +5,17 @@
 set -u
 cd "$(dirname "$0")"
 P=$(realpath "$1"); ID=$2; TIER=${3:-quick}
-W=/tmp/verif-mut-$$-$RANDOM
+# MUTATE_SLOT=<k>: a fixed worktree path per stream, so that the go build cache (keyed by directory)
+# is hit for every package the patch does not touch
+W=/tmp/verif-mut-${MUTATE_SLOT:-$$-$RANDOM}
+[ -n "${MUTATE_SLOT:-}" ] && { git -C /repo worktree remove --force $W >/dev/null 2>&1; rm -rf $W; git -C /repo worktree prune; }
 git -C /repo worktree add -q --detach $W HEAD || exit 2
-trap 'git -C /repo worktree remove --force $W >/dev/null 2>&1; rm -rf /verif/build/alt/$(echo $W | tr -c "A-Za-z0-9" "_")' EXIT
+if [ -n "${MUTATE_SLOT:-}" ]; then
+  # a slot keeps its generated overlay (reused when the patch leaves its inputs alone); binaries and results go
+  trap 'git -C /repo worktree remove --force $W >/dev/null 2>&1; A=/verif/build/alt/$(echo $W | tr -c "A-Za-z0-9" "_"); rm -rf $A/out $A/c[0-9][0-9]' EXIT
+else
+  trap 'git -C /repo worktree remove --force $W >/dev/null 2>&1; rm -rf /verif/build/alt/$(echo $W | tr -c "A-Za-z0-9" "_")' EXIT
+fi
 git -C $W apply "$P" || { echo "patch does not apply"; exit 2; }
 L=build/mutate.$$.log
 VERIF_REPO=$W ./run.sh "$ID" "$TIER" > $L 2>&1
